@@ -224,37 +224,46 @@ def from_datum(node, d, tuples=True):
 
 def normalise(node, d, tree, tuples=True):
     """Expected read-back of datum ``d`` given the branches recorded in
-    ``tree`` (the reference decoding of the bytes actually written)."""
+    ``tree`` (the reference decoding of the bytes actually written).  Total:
+    where the bytes select a branch the datum cannot be read under, the result
+    contains a Mismatch marker (equal to nothing)."""
+    try:
+        return _normalise(node, d, tree, tuples)
+    except (TypeError, KeyError, AttributeError, ValueError, IndexError, OverflowError) as e:
+        return Mismatch("datum does not fit the branch the bytes select: %s" % type(e).__name__)
+
+
+def _normalise(node, d, tree, tuples=True):
     node = deref(node)
     k = node.kind
     if k == "union":
         i, child = tree[1]
         if tuples and type(d) is tuple and len(d) == 2:
             d = d[1]
-        return normalise(node.branches[i], d, child, tuples)
+        return _normalise(node.branches[i], d, child, tuples)
     if node.logical and L.known(node):
         return L.read_back(node, tree[1])
     if k == "record":
         out = {}
         for f, c in zip(node.fields, tree[1]):
             if isinstance(d, Mapping) and f.name in d:
-                out[f.name] = normalise(f.type, d[f.name], c, tuples)
+                out[f.name] = _normalise(f.type, d[f.name], c, tuples)
             elif f.has_default:
-                out[f.name] = normalise(f.type, default_datum(f.type, f.default), c, tuples)
+                out[f.name] = _normalise(f.type, default_datum(f.type, f.default), c, tuples)
             else:
-                out[f.name] = normalise(f.type, None, c, tuples)
+                out[f.name] = _normalise(f.type, None, c, tuples)
         return out
     if k == "array":
         kids = tree[1][0]
         d = list(d)
         if len(d) != len(kids):
             return Mismatch("array length %d vs %d" % (len(d), len(kids)))
-        return [normalise(node.items, x, c, tuples) for x, c in zip(d, kids)]
+        return [_normalise(node.items, x, c, tuples) for x, c in zip(d, kids)]
     if k == "map":
         kids = tree[1][0]
         if len(d) != len(kids):
             return Mismatch("map length")
-        return {key: normalise(node.values, d[key], c, tuples) if key in d else Mismatch("key")
+        return {key: _normalise(node.values, d[key], c, tuples) if key in d else Mismatch("key")
                 for key, c in kids}
     if k == "float":
         try:
